@@ -21,10 +21,14 @@ def plan(tier, seed):
         for n in ([nq] if tier == "quick" else sorted({nq, nt})):
             jobs.append({"id": f"C05:{spec}[{variant}] n={n}", "module": "vf.episodes", "func": "reach_job", "params": dict(spec=spec, variant=variant, n=n)})
         pairs.append((spec, variant, nq + 2))
+    # exact-fill clause in bit-precise float32 (capacities of the library's own table: 20 = CVRP10, 30 = CVRP20, ...)
+    fp = [("cvrp", 3, 17), ("cvrp", 4, 30)] if tier == "quick" else [("cvrp", 3, 17)] + [("cvrp", 4, c) for c in (20, 25, 30, 33)] + [("cvrp", 5, c) for c in (30, 33, 37, 40)]
+    for e, n, c in fp:
+        jobs.append({"id": f"C05:float32 exact fill {e} n={n} capacity={c}", "module": "vf.fpjobs", "func": "exact_fill_job", "params": dict(env_name=e, n=n, capacities=[c])})
     return {
         "jobs": jobs, "torch_requests": CF.rollout_requests(pairs, seed), "level": "model_checking",
         "bounds": "n customers, all instance data symbolic; the action sequence ranges over ALL oracle-feasible canonical solutions of length <= step bound",
-        "outside": "sizes above the bounds; FFSP; float32 rounding except the dedicated exact-fill kernels",
+        "outside": "sizes above the bounds; FFSP; float32 rounding except the dedicated exact-fill jobs (CVRP capacity mask in bit-precise float32: integer demands 1..9, capacities 17/20/25/30/33/37/40, n<=5 customers, every route prefix)",
     }
 
 
@@ -33,6 +37,23 @@ def confirm(rp, resp):
         return False, "witness"
     if "error" in resp:
         return False, "torch side failed: " + resp["error"]
+    if rp.get("mode") == "fp":
+        # integer ground truth: replay the route, then look for an unvisited customer that fits but is masked
+        d, c, load, seen = rp["int_demands"], rp["capacity"], 0, set()
+        for t, a in enumerate(rp["actions"]):
+            if t >= resp["steps"] or not resp["masks"][t][0][a[0]]:
+                return False, "replay diverges: the real mask refuses the route prefix itself"
+            if a[0] == 0:
+                load = 0
+            else:
+                load += d[a[0] - 1]
+                seen.add(a[0])
+        last = resp["masks"][len(rp["actions"])][0]
+        for j in range(1, len(d) + 1):
+            if j not in seen and load + d[j - 1] <= c and not last[j]:
+                return True, (f"float32 mask hides customer {j} after the route {[a[0] for a in rp['actions']]}: integer demands {d}, capacity {c}, load {load} + {d[j - 1]} "
+                              f"{'=' if load + d[j - 1] == c else '<'} {c}")
+        return False, "the real float32 mask offers every customer that fits"
     sp = EV.SPECS[rp["spec"]]
     n, variant = rp["n"], rp["variant"]
     acts = rp["actions"]
@@ -68,4 +89,6 @@ def confirm_witness(rp, resp):
 
 
 def signature(c, rp, resp, text):
+    if rp.get("mode") == "fp":
+        return {"env": rp.get("spec"), "what": "float32 exact fill" if " = " in text else "float32 mask hides a customer that fits with room to spare"}
     return {"env": rp.get("spec"), "variant": rp.get("variant"), "what": re.sub(r"\[[^\]]*\]|\d+", "", text)[:60].strip()}
